@@ -27,6 +27,7 @@ import concurrent.futures as cf
 import json
 import os
 import re
+import shutil
 import sys
 
 from harness import c09builtins
@@ -225,9 +226,7 @@ def ParseVerdicts(out):
 def ValidateTraces(lines, tag, shards):
   """lines: [(id, json text of {'d','ev','strs'}, number of events)]
   -> ({id: verdict}, stats, errors).  One TLC (1 worker) per shard."""
-  d = common.BuildDir('trace', tag)
-  for f in os.listdir(d):
-    os.unlink(os.path.join(d, f))
+  d = common.BuildDir('trace', '%s_%d' % (tag, os.getpid()))
   order = sorted(lines, key=lambda l: -l[2])
   shards = max(1, min(shards, len(lines)))
   parts = [[] for _ in range(shards)]
@@ -262,6 +261,7 @@ def ValidateTraces(lines, tag, shards):
                 'Accepted' in r.out or 'is violated' in r.out)
     if len(vs) != len(part) or not finished:
       errors.append((path, r.rc, r.out[-2500:]))
+  shutil.rmtree(d, ignore_errors=True)   # concurrent runs use their own dir
   return verdicts, {'states': states, 'transitions': generated,
                     'shards': len(paths)}, errors
 
@@ -270,7 +270,8 @@ def ModelRuns(cfg, pool):
   futs = []
   for name, maxlen in cfg['mc']:
     cfgname = 'MCSqlScope_%s.cfg' % name
-    path = os.path.join(common.BuildDir('c09cfg'), '%s_%d.cfg' % (name, maxlen))
+    path = os.path.join(common.BuildDir('c09cfg'),
+                        '%s_%d_%d.cfg' % (name, maxlen, os.getpid()))
     with open(os.path.join(common.SPEC, cfgname)) as f:
       text = re.sub(r'MaxLen = \d+', 'MaxLen = %d' % maxlen, f.read())
     with open(path, 'w') as f:
@@ -479,6 +480,9 @@ def Run(tier):
     if not r.ok:
       machinery.append('MCSqlScope_%s failed: %s' % (name, r.out[-800:]))
   pool.shutdown()
+  for f in os.listdir(common.BuildDir('c09cfg')):
+    if f.endswith('_%d.cfg' % os.getpid()):
+      os.unlink(os.path.join(common.BuildDir('c09cfg'), f))
 
   nviol, suppressed = _Report(klass, out.problems + problems)
   for sig, payload in calib_bad:
